@@ -27,6 +27,10 @@ inductive SetOp where
   | empty (i : Nat)
   | universe (i : Nat)
   | contains (i e : Nat)
+  | newSet                    -- `with_env`: a new empty set object in the shared environment
+  | fromElement (e : Nat)     -- `from_element`: a new object holding `{e}`
+  | clone (i : Nat)           -- `Clone` / `from_bdd` of object `i`'s diagram: a new, independent object
+  | equal (i j : Nat)         -- `PartialEq` between two objects of one environment and width
 deriving Repr, DecidableEq
 
 structure State where
@@ -52,6 +56,13 @@ def step (st : State) : SetOp → Option (State × Option Bool)
   | .contains i e => (st.sets[i]?).map (fun s =>
       -- the query builds the singleton and compares `self ∩ {e}` with it; `self` is not assigned
       (st, some (decide (BDD.and s (item st.bits e) = item st.bits e))))
+  | .newSet => some ({ st with sets := st.sets ++ [BDD.mkConst false] }, none)
+  | .fromElement e => some ({ st with sets := st.sets ++ [BDD.or (BDD.mkConst false) (item st.bits e)] }, none)
+  | .clone i => (st.sets[i]?).map (fun s => ({ st with sets := st.sets ++ [s] }, none))
+  | .equal i j => do
+    let a ← st.sets[i]?; let b ← st.sets[j]?
+    -- derived `PartialEq`: same environment and width by construction here, so the diagrams decide
+    pure (st, some (decide (a = b)))
 
 end SetModel
 end Rsbdd
